@@ -376,6 +376,19 @@ def newStartTLS (s : CliSt) : NewResult :=
   | some .ok => if s.state = .notAuth then .client else .error
   | _ => .error
 
+/-- the two public constructors that upgrade a plaintext connection -/
+inductive Ctor where
+  | newStartTLS    -- imapclient.NewStartTLS(conn, options)
+  | dialStartTLS   -- imapclient.DialStartTLS(address, options): dials TCP, derives the tls.Config, then
+                   -- returns NewStartTLS(conn, &newOptions) (imapclient/client.go: DialStartTLS)
+deriving DecidableEq, Repr
+
+/-- what the constructor returns once the reader has processed the plaintext part: both go through the
+    same decision (the PREAUTH refusal lives in NewStartTLS, DialStartTLS must delegate to it) -/
+def construct : Ctor → CliSt → NewResult
+  | .newStartTLS, s => newStartTLS s
+  | .dialStartTLS, s => newStartTLS s
+
 /-- commands NewStartTLS itself puts on the wire after the STARTTLS command: none -/
 def furtherCommands (_ : CliSt) : List Bytes := []
 
@@ -384,8 +397,8 @@ structure CliRun where
   result : NewResult
   hsOK : Bool
 
-def runClient (h : Handover) (tag : Bytes) (segs : List Bytes) (peerHandshakes : Bool) : CliRun :=
+def runClient (h : Handover) (k : Ctor) (tag : Bytes) (segs : List Bytes) (peerHandshakes : Bool) : CliRun :=
   let r := route h clientExec (RSt.init (cliInit tag)) segs
-  ⟨r, newStartTLS r.st, r.st.tls && tlsAccepts r.tls peerHandshakes⟩
+  ⟨r, construct k r.st, r.st.tls && tlsAccepts r.tls peerHandshakes⟩
 
 end GoImap.StartTLS
